@@ -271,6 +271,7 @@ def impl_model_stage(prefixes, expect_fail=(), orig_mutants=()):
                     uniq.append(h)
             hs, skip = md.to_harness(m)
             scns.append(hs)
+            uniq = uniq[:20000]
             lines += md.behaviours_to_replay(m, uniq, skip)
             cov["generated_behaviours"] += len(uniq)
         if not lines:
@@ -330,7 +331,7 @@ def impl_model_stage(prefixes, expect_fail=(), orig_mutants=()):
     return stage
 
 
-def plans_for(tier, dfs_cap_quick=700, dfs_cap_thorough=8000, rnd_quick=150, rnd_thorough=1500):
+def plans_for(tier, dfs_cap_quick=700, dfs_cap_thorough=4000, rnd_quick=150, rnd_thorough=1500):
     # bound 1 first: every schedule in which one thread is frozen once, at any op, while the others run on
     # (linear in the run length, normally complete), then the deeper capped enumeration
     if tier == "quick":
